@@ -30,6 +30,7 @@ type GraphOpts struct {
 	Leaf        bool // allow processes without out-ports (driver shapes)
 	MapTags     bool
 	NoUnequal   bool
+	DirOut      bool // some outputs are directories
 }
 
 type stream struct {
@@ -270,6 +271,9 @@ func Graph(rng *rand.Rand, name string, o GraphOpts) *spec.Spec {
 						pat += "_{p:" + pr + "}"
 					}
 					p.Outs = append(p.Outs, &spec.Out{Port: on, Pattern: pat + ".out"})
+				}
+				if o.DirOut && rng.Intn(6) == 0 {
+					od.Dir = true
 				}
 				outs = append(outs, od)
 			}
